@@ -144,8 +144,7 @@ def setup_clauses(task):
     prog = Program()
     R = registry.build()
     sch = core_schema()
-    C = dict(R["contracts"])
-    C.pop(q, None)
+    C = dict(R["contracts"])   # the recursive call paper.setup(...) uses setup's own call-site contract
     ex = TolerantExecutor(prog, sch, C, inline=R["inline"])
     fi = prog.func(q)
     out["source_hash"] = fi.source_hash()
@@ -157,7 +156,8 @@ def setup_clauses(task):
     E0 = st.heap.copy()
     from pyvc.tolerant import Tainted
 
-    exits = ex.run_function(fi, st, self, [Tainted("universe"), ])
+    uni = Tainted("universe")
+    exits = ex.run_function(fi, st, self, [uni, ])
     out["paths"] = len(exits)
     n_normal = 0
     for (s, oc) in exits:
@@ -166,11 +166,35 @@ def setup_clauses(task):
         n_normal += 1
         F = s.heap
         bad_nesting = And(E0.get(self, "_fixed_income"), Not(E0.get(parent, "_fixed_income")))
-        for oid, goal, props in (
+        isroot = self.term == parent.term
+        copies = [x for x in s.log if x[0] == "deepcopy" and x[1].term is self.term or (x[0] == "deepcopy" and z3.is_true(z3.simplify(x[1].term == self.term)))]
+        oblist = [
             ("StrategyBase.setup/resets-bankrupt-flag", Not(F.get(self, "bankrupt")), ["C16"]),
             ("StrategyBase.setup/fixed-income-child-of-market-value-parent-never-completes", Not(bad_nesting), ["C10", "C17"]),
-            ("StrategyBase.setup/paper-flag-iff-not-root", F.get(self, "_paper_trade") == Or(E0.get(self, "_paper_trade"), self.term != parent.term) if False else Implies(self.term != parent.term, F.get(self, "_paper_trade")), ["C09"]),
-        ):
+            ("StrategyBase.setup/paper-flag-iff-not-root", Implies(self.term != parent.term, F.get(self, "_paper_trade")), ["C09"]),
+            # the shadow copy (C09, C19): exactly one deep copy of self is made for a non-root strategy, none for a root
+            ("StrategyBase.setup/shadow:one-deep-copy-of-self-iff-not-root", (len(copies) == 1) if False else Implies(Not(isroot), len(copies) == 1) if len(copies) <= 1 else False, ["C09", "C19"]),
+            ("StrategyBase.setup/shadow:none-for-a-root", Implies(isroot, len(copies) == 0), ["C09", "C19"]),
+        ]
+        if len(copies) == 1:
+            P = copies[0][2][0]
+            calls = [x for x in s.log if len(x) == 4 and x[0] != "deepcopy" and isinstance(x[1], RefV) and z3.is_true(z3.simplify(x[1].term == P.term))]
+            names = [x[0].rsplit(".", 1)[1] for x in calls]
+            amount = None
+            for x in calls:
+                if x[0].endswith(".adjust"):
+                    amount = x[2][0]
+            setup_args = [x for x in calls if x[0].endswith(".setup")]
+            kw_same = bool(setup_args) and isinstance(setup_args[0][2][-1], dict) and set(setup_args[0][2][-1].keys()) == {"**"}
+            oblist += [
+                ("StrategyBase.setup/shadow:is-what-self._paper-holds", F.get(self, "_paper").term == P.term, ["C09"]),
+                ("StrategyBase.setup/shadow:is-its-own-parent-and-the-root-of-its-subtree", And(F.get(P, "parent").term == P.term, F.get(P, "root").term == P.term, "_set_root" in names), ["C09", "C19"]),
+                ("StrategyBase.setup/shadow:is-not-itself-paper-traded", Not(F.get(P, "_paper_trade")), ["C09"]),
+                ("StrategyBase.setup/shadow:set-up-then-funded-once-each-in-this-order", [n for n in names if n in ("setup", "adjust")] == ["setup", "adjust"], ["C09"]),
+                ("StrategyBase.setup/shadow:set-up-on-the-same-universe-and-kwargs", bool(setup_args) and (setup_args[0][2][0] is uni or getattr(setup_args[0][2][0], "field", None) == "_original_data") and kw_same, ["C09", "C04"]),
+                ("StrategyBase.setup/shadow:funded-with-the-fixed-notional-one-million", amount is not None and And(value_same_num(amount, F.get(self, "_paper_amount")), F.get(self, "_paper_amount").eq(1000000)), ["C09"]),
+            ]
+        for oid, goal, props in oblist:
             o = Oblig(oid, s.pc, goal, "post", tuple(props))
             r = prove(o, timeout_ms=20000)
             d = dict(id=oid, kind="post", props=props, verdict=r.verdict, backend=r.backend + " (tolerant execution)", secs=round(r.secs, 4), func=q)
@@ -189,6 +213,12 @@ TIME_MOVERS = {"shift", "tshift", "reindex", "reindex_like", "ffill", "bfill", "
                "truncate", "last", "first", "tail", "head", "searchsorted", "asof", "set_index", "reset_index", "iloc", "loc", "at", "iat", "mean", "sum", "max", "min"}
 INSTALLER_OK = {"DataFrame", "Series", "concat", "copy", "equals", "DateOffset", "any", "duplicated", "tolist", "setup", "adjust", "_process_data", "set_commissions", "use_integer_positions", "_set_root", "pop", "get", "items", "keys", "values", "append", "format"}
 INSTALLERS = ("bt.core.StrategyBase.setup", "bt.core.SecurityBase.setup", "bt.core.CouponPayingSecurity.setup", "bt.backtest.Backtest._process_data", "bt.backtest.Backtest.__init__")
+
+
+def value_same_num(a, b):
+    from pyvc.contracts import value_same
+
+    return value_same(Num.lift(a) if not isinstance(a, Num) else a, b)
 
 
 def installer_scan(task):
